@@ -972,6 +972,7 @@ def mon_C08_latest_weight(t):
     from sched_util import weight_calc
     out = []
     want = {}      # key -> (id, weight, call index) from the latest weight-determining upsert on a present key
+    parked = set()
     for i, r in enumerate(t.recs):
         if r["skipped"]:
             continue
@@ -989,8 +990,16 @@ def mon_C08_latest_weight(t):
                     want[k] = (ent[2], w, i)
                 elif p[6] != "-" or p[7] == "1":
                     want.pop(k, None)      # a TTL-only change adjusts the weight by +-24 depending on the old one: not tracked
-        if p[0] in ("call", "run") and r["ret"] and r["ret"][0] == 3:
-            want.clear()                   # a parked caller makes the order of application ambiguous
+        # a parked caller (blocked at its send) makes the order of application ambiguous: its command is queued when it is
+        # released, after commands of calls that were issued later - nothing is claimed while one is parked or just released
+        if p[0] == "call" and r["ret"] and r["ret"][0] == 3:
+            parked.add(p[1])
+        if p[0] == "run":
+            if not (r["ret"] and r["ret"][0] == 3):
+                parked.discard(p[1])
+            want.clear()
+        if parked:
+            want.clear()
         if p[0] == "call" and p[2] in ("delete", "shutdown") and len(p) > 3 and int(p[3]) in want:
             want.pop(int(p[3]), None)
         if t.quiescent(i) and r["roles"]["worker"] == "alive" and not r["snap"]["shut"]:
